@@ -1642,6 +1642,58 @@ func runC20(w *World, r *Report) {
 	}
 
 	// ---- nil-miss-deref
+	r.Rule("C20.runnable-read-only-where-set", "a node added as a nested graph has no runnable until its parent compiles (graphNode.cr is nil): the Add* paths of the graph (addNode, addBranch, addEdgeWithMappings) read through a node's cr only where the path establishes that it is set — cr != nil, or the node being a pass-through node by its executor meta", 2)
+	{
+		fCr := w.Field("compose", "graphNode", "cr")
+		fComp := w.Field("compose", "executorMeta", "component")
+		n := 0
+		for _, nm := range []string{"graph.addNode", "graph.addBranch", "graph.addEdgeWithMappings"} {
+			f := w.Fn("compose", nm)
+			k := 0
+			instrs(f, func(in ssa.Instruction) {
+				fa, ok := in.(*ssa.FieldAddr)
+				if !ok || !isLoadOfField(fa.X, fCr) {
+					return
+				}
+				k++
+				n++
+				established := func(g guard) bool {
+					if guardNonNil(g, func(v ssa.Value) bool { return isLoadOfField(v, fCr) }) {
+						return true
+					}
+					// executorMeta.component == ComponentOfPassthrough
+					op, x, y, isCmp := asCmp(g.cond)
+					if !isCmp || op != token.EQL || !g.pol {
+						return false
+					}
+					for _, pr := range [][2]ssa.Value{{x, y}, {y, x}} {
+						if isLoadOfField(pr[0], fComp) {
+							if cs, isS := constString(pr[1]); isS && cs == "Passthrough" {
+								return true
+							}
+						}
+					}
+					return false
+				}
+				okG := hasGuard(fa.Block(), established)
+				for d := fa.Block(); d != nil && !okG; d = d.Idom() {
+					// conjuncts of `a && b` whose true edges lead here
+					if len(d.Preds) == 1 {
+						for _, g := range guardsOfEdge(d.Preds[0], d) {
+							if established(g) {
+								okG = true
+							}
+						}
+					}
+				}
+				r.Check(okG, "C20.runnable-read-only-where-set", fmt.Sprintf("%s: read #%d through a node's runnable", nm, k), fa.Pos(), "under cr != nil / component == Passthrough", "the node's cr is dereferenced where nothing says it is set: for a start node added with AddGraphNode / AppendGraph (cr == nil until the parent compiles) AddBranch panics with a nil dereference instead of returning — the well-formed branch and the ill-formed ones alike — and the panic skips the deferred buildError, so a caller that recovers is left with a graph that still compiles")
+			})
+		}
+		if n < 2 {
+			undecidedf("C20.runnable-read-only-where-set: only %d reads through graphNode.cr on the Add* paths", n)
+		}
+	}
+
 	r.Rule("C20.nil-miss-deref", "map lookups without comma-ok whose pointer result is dereferenced have a dominating existence check", 5)
 	var bfns []*ssa.Function
 	for f := range strict {
